@@ -12,6 +12,7 @@ import (
 	"github.com/markusressel/fan2go/internal"
 	"github.com/markusressel/fan2go/internal/configuration"
 	"github.com/markusressel/fan2go/internal/controller"
+	"github.com/markusressel/fan2go/internal/util"
 	"github.com/markusressel/fan2go/internal/sensors"
 	"github.com/prometheus/client_golang/prometheus"
 	"github.com/spf13/viper"
@@ -212,6 +213,101 @@ func mClass(m int) string {
 		return "11..254"
 	}
 	return "255"
+}
+
+// c04DirectAfterHistory: the direct algorithm (with and without a per-cycle limit) after a prior history of curve
+// values - moves in one direction followed by a small reversal (the final value one request step or one curve step
+// away from where the request came to rest), steps, random walks, alternation. The steady request depends on the final
+// curve value and the fan's limits alone: S(c), reached within ceil(255/m)+1 cycles.
+func c04DirectAfterHistory(ctx *Ctx, cfg c04Config, m int, r *rand.Rand, nRuns int) {
+	class := fmt.Sprintf("range=%s", rangeClass(cfg))
+	S, msg := c04Steady(cfg)
+	if msg != "" {
+		return
+	}
+	// the curve value nearest to c whose steady request differs from S[from] by exactly d (or -1)
+	withStep := func(from, d int) int {
+		for dist := 1; dist <= 255; dist++ {
+			for _, c := range []int{from + dist*sign(d), from - dist*sign(d)} {
+				if c >= 0 && c <= 255 && S[c]-S[from] == d {
+					return c
+				}
+			}
+		}
+		return -1
+	}
+	for i := 0; i < nRuns; i++ {
+		loop := LoopSpec{Kind: "direct"}
+		bound := 1
+		if i%2 == 1 && m > 0 {
+			loop = LoopSpec{Kind: "ratelimit", M: m}
+			bound = (255+m-1)/m + 1
+		}
+		rn := &c04Run{Cfg: cfg, Loop: loop, Start: r.Intn(256), TickMs: 200, Cycles: bound + 6}
+		hclass := ""
+		settle := bound + 2
+		switch i % 4 {
+		case 0, 1: // a move in one direction, then a reversal by one request step
+			hclass = "move-then-one-request-step-back"
+			c0, c1 := r.Intn(256), r.Intn(256)
+			d := 1
+			if c1 > c0 {
+				d = -1
+			}
+			rn.History = []int{c0, settle, c1, settle}
+			rn.Curve = withStep(c1, d)
+			if rn.Curve < 0 {
+				continue
+			}
+		case 2: // ... by one curve step, after several moves in that direction
+			hclass = "moves-then-one-curve-step-back"
+			c := r.Intn(256)
+			up := r.Intn(2) == 0
+			for k := 0; k < 4; k++ {
+				rn.History = append(rn.History, c, 1+r.Intn(settle))
+				if up {
+					c += r.Intn(40)
+				} else {
+					c -= r.Intn(40)
+				}
+				c = int(util.Coerce(float64(c), 0, 255))
+			}
+			rn.History = append(rn.History, c, settle)
+			if up {
+				rn.Curve = c - 1
+			} else {
+				rn.Curve = c + 1
+			}
+			rn.Curve = int(util.Coerce(float64(rn.Curve), 0, 255))
+		default:
+			hclass = "random-walk"
+			cur := r.Intn(256)
+			for k := 0; k < 60; k++ {
+				cur = int(util.Coerce(float64(cur+r.Intn(7)-3), 0, 255))
+				rn.History = append(rn.History, cur, 1+r.Intn(3))
+			}
+			rn.Curve = int(util.Coerce(float64(cur+pick(r, -1, 1, 0, -2, 2)), 0, 255))
+		}
+		reqs, err := rn.exec()
+		ctx.Eval(int64(len(reqs)))
+		if err != nil {
+			ctx.Violation("direct-after-history:error:"+class, fmt.Sprintf("%s: %v", jsonStr(rn), err), rn)
+			return
+		}
+		final := reqs[len(reqs)-1]
+		if final != S[rn.Curve] || reqs[bound-1] != S[rn.Curve] {
+			ctx.Violation(fmt.Sprintf("%s-steady-value-depends-on-history:%s:history=%s", loop.Kind, class, hclass), fmt.Sprintf("%s: requests %v at constant curve %d, steady value without history %d", jsonStr(rn), reqs, rn.Curve, S[rn.Curve]), rn)
+			return
+		}
+		ctx.Nontrivial(fmt.Sprintf("after-history|%s|%d|%d|%s|%d", loop.Kind, cfg.Min, cfg.Max, hclass, rn.Curve))
+	}
+}
+
+func sign(d int) int {
+	if d < 0 {
+		return -1
+	}
+	return 1
 }
 
 func c04Pid(ctx *Ctx, cfg c04Config, r *rand.Rand, nRuns int) {
@@ -741,6 +837,7 @@ func init() {
 				nPid = 40
 			}
 			c04Pid(ctx, cfg, r, nPid)
+			c04DirectAfterHistory(ctx, cfg, m, r, nPid*4)
 			c04ConfigPath(ctx, i)
 			c04StoppingFan(ctx, cfg, r)
 			c04RealFanLimits(ctx, r)
